@@ -391,6 +391,9 @@ func (c18) Generate(r *rand.Rand, t string) []*Case {
 
 	out = append(out, c18StandaloneCases(r, t)...) // stream standalone-sequence (c18_standalone.go)
 
+	out = append(out, c18LayoutCases(r, t)...)  // stream import-layout (c18_layout.go)
+	out = append(out, c18DictKeyCases(r, t)...) // stream dict-key (c18_layout.go, c03_dictkey.go)
+
 	if t != "thorough" {
 		return out
 	}
@@ -827,6 +830,9 @@ func (c18) Compare(c *Case, exp, got []hist.Obs) string {
 	}
 	if _, ok := c.Meta["c18sa"]; ok {
 		return c18StandaloneCompare(exp, got) // c18_standalone.go
+	}
+	if c.Meta["weak"] == true {
+		return weakOrderCompare(exp, got) // stream dict-key, recorded finding dict-keys-register-in-map-order only
 	}
 	return CompareAll(exp, got)
 }
